@@ -101,6 +101,87 @@ def _glob_action(ctx, cg, prev, part):
     return ("replace", texts[-1])
 
 
+def _may_match_sep(items, guarded=False):
+    """Can a string matched by this parsed regex fragment contain '/'?  (regex AST walk; conservative: unknown -> yes)"""
+    import re._constants as C
+
+    SEP = ord("/")
+    skip_next = False
+    for op, av in items:
+        if skip_next:
+            skip_next = False
+            continue
+        if op is C.ASSERT_NOT and av[0] == 1 and list(av[1]) == [(C.LITERAL, SEP)]:
+            skip_next = True  # (?!/)X : the next single-character atom cannot be a separator
+            continue
+        if op is C.LITERAL:
+            if av == SEP:
+                return True
+        elif op is C.NOT_LITERAL:
+            if av != SEP:
+                return True
+        elif op is C.ANY:
+            return True
+        elif op is C.IN:
+            neg = any(o is C.NEGATE for o, _ in av)
+            hit = False
+            for o, a in av:
+                if o is C.LITERAL and a == SEP:
+                    hit = True
+                elif o is C.RANGE and a[0] <= SEP <= a[1]:
+                    hit = True
+                elif o is C.CATEGORY:
+                    hit = hit or not neg  # conservative
+            if hit != neg:
+                return True
+        elif op in (C.MAX_REPEAT, C.MIN_REPEAT):
+            if _may_match_sep(av[2]):
+                return True
+        elif op is C.SUBPATTERN:
+            if _may_match_sep(av[3]):
+                return True
+        elif op is C.BRANCH:
+            if any(_may_match_sep(b) for b in av[1]):
+                return True
+        elif op in (C.AT, C.ASSERT, C.ASSERT_NOT, C.GROUPREF):
+            continue
+        else:
+            return True
+    return False
+
+
+def rule_component_wildcards(ctx):
+    """R-C17-6: a wildcard that stands for (part of) one path component never consumes a separator.
+
+    The file-system scan splits the pattern on '/' before matching, so `?`, `*` and `[...]` can never match
+    one.  The regex is what the incremental update, the watcher's relevance test and the glob-versus-product
+    conflict check use; if a token's regex admits '/', those disagree with the scan.
+    """
+    import re._parser as P
+
+    cr = ctx.prog.func("nglob.convert_nglob_to_regex")
+    chain = _find_if_chain(cr.node, "part == '?'")
+    if chain is None:
+        raise AnalysisError("token chain of convert_nglob_to_regex not found")
+    samples = [("?", "any one character"), ("*", "any run of characters"), ("[ab]", "a class"), ("[.-0]", "a class with a range across '/'"), ("[!ab]", "a negated class")]
+    for part, what in samples:
+        env = {"part": part, "last": "a", "replace": False, "regex": None, "star_name": None, "subs": {}, "allow_names": True, "pattern": "p", "encountered": set()}
+        try:
+            ev = Evaluator(ctx.prog, cr.module, env)
+            ev.st(chain)
+        except FoldError as exc:
+            raise AnalysisError(f"cannot interpret the token chain for {part!r}: {exc}") from exc
+        regex = ev.env["regex"]
+        if not isinstance(regex, str):
+            raise AnalysisError(f"token {part!r} yields no regex")
+        try:
+            parsed = list(P.parse(regex))
+        except re.error as exc:
+            ctx.bad(cr.fq, f"token {part} ({what}) translates to a valid regex", f"{regex!r}: {exc}")
+            continue
+        ctx.check(not _may_match_sep(parsed), cr.fq, f"token {part} ({what}) cannot match '/'", f"{part} is translated to {regex}, which matches '/': the matcher accepts paths in other directories that no file-system scan of the pattern returns, so an incremental update differs from a rescan and a valid output is reported as matched by the pattern", f"{regex}", where=ctx.where_of(cr))
+
+
 def rule_mergers(ctx):
     """R-C17-2."""
     cr = ctx.prog.func("nglob.convert_nglob_to_regex")
@@ -216,6 +297,7 @@ def rule_incremental(ctx):
 
 
 RULES = [
+    Rule("R-C17-6", "single-component wildcards never consume a separator", rule_component_wildcards, min_instances=5),
     Rule("R-C17-1", "token exhaustiveness", rule_tokens, min_instances=15),
     Rule("R-C17-2", "the two neighbour mergers agree", rule_mergers, min_instances=24),
     Rule("R-C17-3", "one matcher per registration", rule_one_matcher, min_instances=11),
@@ -224,6 +306,8 @@ RULES = [
 ]
 
 MUTANTS = [
+    Mutant("question-mark-matches-separator", "nglob.py", in_function("convert_nglob_to_regex", replace_once('                regex = r"[^/]"\n', '                regex = r"."\n')), ("R-C17-6",)),
+    Mutant("star-matches-separator", "nglob.py", in_function("convert_nglob_to_regex", replace_once('                    regex = r"[^/]*"\n', '                    regex = r"[^\\n]*"\n')), ("R-C17-6",)),
     Mutant("persist-by-pattern", "workflow.py", in_function("Workflow.persist_nglob_matches", lambda s: s.replace("        data = (json.dumps(json_converter.unstructure(ng)), nglob_i)\n        self.db.execute(\"UPDATE nglob SET data = ? WHERE i = ?\", data)\n", "        data = (json.dumps(json_converter.unstructure(ng)), step.i, ng.pattern)\n        self.db.execute(\"UPDATE nglob SET data = ? WHERE node = ? AND pattern = ?\", data)\n") if "WHERE i = ?" in s else None), ("R-C17-5",)),
     Mutant("product-check-prefix-match", "workflow.py", in_function("Workflow._raise_if_glob_match", lambda s: s.replace("re.compile(regex).fullmatch(path)", "re.compile(regex).match(path)", 1) if "re.compile(regex).fullmatch(path)" in s else None), ("R-C17-3",)),
     Mutant("hidden-skipped", "nglob.py", in_function("NamedGlob.glob", replace_once("include_hidden=True", "include_hidden=False")), ("R-C17-4",)),
